@@ -247,6 +247,7 @@ func resetSim() {
 // runFresh computes the reference outcome of every op.
 func runFresh(p *plan.SchedPlan) *passResult {
 	resetSim()
+	verifsim.SetProcs(p.SimProcs)
 	verifsim.BeginMain()
 	e := newEnv(p)
 	res := &passResult{Recs: make([][]opRec, len(p.Tasks))}
@@ -265,6 +266,7 @@ type opRef struct{ T, J int }
 // data, in the given order (nil: task order).
 func runHistory(p *plan.SchedPlan, order []opRef) *passResult {
 	resetSim()
+	verifsim.SetProcs(p.SimProcs)
 	verifsim.BeginMain()
 	e := newEnv(p)
 	e.buildShared()
@@ -353,7 +355,9 @@ func runConc(p *plan.SchedPlan, refSteps [][]int) *passResult {
 	} else {
 		verifsim.SetHardCap(200000000)
 	}
+	verifsim.SetProcs(p.SimProcs)
 	verifsim.StartRun(k, p.First, p.Quantum, p.Points)
+	verifsim.SetPick(p.Pick)
 	var wg sync.WaitGroup
 	for t := 0; t < k; t++ {
 		wg.Add(1)
@@ -699,6 +703,13 @@ func GenSchedPlan(seed uint64, idx int, prop string) *plan.SchedPlan {
 	}
 	r := plan.New(plan.Mix(seed, uint64(idx)+salt<<20))
 	p := &plan.SchedPlan{Engine: "simsched", Property: prop, Build: "plain", Seed: seed, Index: idx, Policy: "sequential"}
+	// what the library is told about the number of processors, and how goroutines
+	// it starts itself are picked (both only matter to a library that asks / starts some)
+	h := plan.Mix(plan.Mix(seed, uint64(idx)), 0x9c0c5)
+	p.SimProcs = []int{0, 0, 2, 4, 8, 3}[h%6]
+	if (h>>8)%2 == 0 {
+		p.Pick = 1 + (h>>16)%1000000
+	}
 	panicky = prop == "C12"
 	uniq := fmt.Sprintf("-u%x", plan.Mix(seed, uint64(idx))&0xffffff)
 	k := 1
